@@ -235,9 +235,9 @@ def parts(tier):
             Part('tree-generators', make_harness(max_events=4, max_depth=2, allow_gen=True, allow_stop=False, allow_nested_complete=False),
                  bounds={'max_events': 4, 'max_depth': 2, 'roots': 1, 'child_kinds': ['normal', 'cancelled'], 'ends': ['ok', 'raise'], 'generators': True},
                  encoded=ENC, budget_s=70),
-            Part('call-in-generator', make_harness(max_events=5, max_depth=4, allow_gen=False, allow_call=True, allow_stop=False, allow_raise=False,
+            Part('call-in-generator', make_harness(max_events=5, max_depth=4, allow_gen=False, allow_call=True, allow_stop=False, allow_raise=True,
                                                    allow_nested_complete=False, allow_cancel=False, max_ticks=60, fanout=1),
-                 bounds={'max_events': 5, 'max_depth': 4, 'roots': 1, 'fanout': 1, 'child_kinds': ['normal'], 'ends': ['ok'],
+                 bounds={'max_events': 5, 'max_depth': 4, 'roots': 1, 'fanout': 1, 'child_kinds': ['normal'], 'ends': ['ok', 'raise (also after the call has returned)'],
                          'generators': 'a handler may suspend in call(child) and fire children when the call returns'},
                  encoded=ENC + [M.Manager.callEvent, M.Manager.waitEvent], budget_s=70),
             Part('two-generator-handlers', make_harness(max_events=3, max_depth=1, allow_gen=True, allow_stop=False, allow_nested_complete=False, allow_cancel=False, two_generators=True),
